@@ -106,6 +106,8 @@ def commands(files, has_dep5, with_download_all=True):
             ["download", "LicenseRef-verif"],
             ["annotate", "--copyright", "V", "--license", "MIT", "--skip-existing", target],
             ["annotate", "--copyright", "V", "--license", "()", target], ["annotate", "--copyright", "V", "--license", "(AND 1", target],
+            # the header goes to the sibling whatever the file holds (the sibling may be unreadable, e.g. a directory)
+            ["annotate", "--copyright", "V", "--license", "MIT", "--force-dot-license", target, "src/a.py"],
             # every identifier the covered files use and LICENSES/ lacks (nobody answers at the address the tool is pointed at: each one fails cleanly)
             ["download", "--all"]]
     if not with_download_all:
@@ -326,7 +328,7 @@ GITCONFIG_TOKENS = ['[submodule "a"]\n', "[submodule]\n", '[submodule "b c"]\n',
 
 @st.composite
 def content_case(draw):
-    where = draw(st.sampled_from(["file", "file", "dotlicense", "licenses", "template", "template", "gitmodules"]))
+    where = draw(st.sampled_from(["file", "file", "dotlicense", "licenses", "template", "template", "gitmodules", "dotlicense-dir"]))
     if where == "template" and draw(st.booleans()):
         data = "".join(draw(st.lists(st.sampled_from(JINJA_TOKENS), min_size=1, max_size=10))).encode()
     elif where == "gitmodules" and draw(st.integers(0, 3)) != 0:
@@ -346,6 +348,10 @@ def check_content(ctx, c):
         files["src/sub/b.py"] = c["data"]
     elif c["where"] == "dotlicense":
         files["src/sub/b.py.license"] = c["data"]
+    elif c["where"] == "dotlicense-dir":
+        # FILE.license is a directory (holding the odd bytes): FILE cannot be read through its sibling, the others can
+        files["src/sub/b.py"] = "# SPDX-FileCopyrightText: 2020 B\n# SPDX-License-Identifier: MIT\n"
+        files["src/sub/b.py.license/inner.txt"] = c["data"]
     elif c["where"] == "licenses":
         files["LICENSES/LicenseRef-odd.txt"] = c["data"]
         files["src/sub/b.py"] = "# SPDX-FileCopyrightText: 2020 B\n# SPDX-License-Identifier: LicenseRef-odd\n"
@@ -425,6 +431,14 @@ def run(ctx):
                 doc = "Format: https://www.debian.org/doc/packaging-manuals/copyright-format/1.0/\nUpstream-Name: x\n\n"
                 doc += (f"Files: c.txt\nCopyright: 2020 A\nLicense: MIT\n\nFiles: src/*\nCopyright: 2020 B\nLicense: {expr}\n" if second else f"Files: *\nCopyright: 2020 A\nLicense: {expr}\n Body text\n .\n more\n")
                 check_dep5(ctx, {"gen": "dep5", "data": doc.encode(), "corrupt": "none", "with_toml": False, "bad_license": expr})
+    # REUSE.toml documents that are hard on a parser: values nested hundreds of levels deep, an integer of thousands of digits
+    hard = [("deep-array", "version = 1\nx = " + "[" * 600 + "]" * 600 + "\n"), ("deep-inline-table", "version = 1\nx = " + "{a = " * 400 + "1" + "}" * 400 + "\n"),
+            ("huge-integer", "version = 1\nx = " + "9" * 5000 + "\n"), ("huge-integer-as-version", "version = " + "1" * 5000 + "\n"),
+            ("deep-array-in-annotations", 'version = 1\n[[annotations]]\npath = ' + "[" * 500 + '"a"' + "]" * 500 + '\nSPDX-FileCopyrightText = "x"\nSPDX-License-Identifier = "MIT"\n')]
+    for i, (kind, doc) in enumerate(hard):
+        for j, nested in enumerate((False, True)):
+            if (i * 2 + j + 3) % ctx.nshards == ctx.shard:
+                check_toml(ctx, {"gen": "toml", "data": doc.encode(), "corrupt": kind, "nested": nested})
     hyp_run(ctx, "toml", toml_doc(), lambda c: check_toml(ctx, c), 120 if q else 2500)
     hyp_run(ctx, "dep5", dep5_doc(), lambda c: check_dep5(ctx, c), 120 if q else 2500)
     hyp_run(ctx, "content", content_case(), lambda c: check_content(ctx, c), 150 if q else 4000)
